@@ -88,6 +88,9 @@ Qed.
 Lemma total_ev l : (total l == ev (fun _ => 1%Q) l)%Q.
 Proof. induction l as [|[k' p] r IH]; simpl; [reflexivity|]. rewrite IH; ring. Qed.
 
+Lemma ev_cons phi k p l : ev phi ((k, p) :: l) = (phi k * p + ev phi l)%Q.
+Proof. reflexivity. Qed.
+
 Lemma ev_app phi l1 l2 : (ev phi (l1 ++ l2) == ev phi l1 + ev phi l2)%Q.
 Proof. induction l1 as [|x r IH]; simpl; [ring|]. rewrite IH; ring. Qed.
 
@@ -357,9 +360,10 @@ Section SimP.
   Lemma finalize_ev phi (d : dict) : ev phi (finalize d) == qsum (contrib phi []) (branches d).
   Proof.
     induction d as [|[k l] r IH]; [reflexivity|].
-    cbn [finalize map fst snd ev]. fold (finalize r). rewrite branches_cons, qsum_app, IH, qsum_map.
+    change (finalize ((k, l) :: r)) with ((k, sum_probs l) :: finalize r).
+    rewrite ev_cons, branches_cons, qsum_app, IH, qsum_map.
     apply Qplus_comp; [|reflexivity]. rewrite sum_probs_qsum.
-    unfold contrib; cbn [fst snd path_law ev]. clear. induction l as [|b l IH]; cbn [qsum]; [ring|].
+    unfold contrib; cbn [fst snd path_law]. unfold ev; cbn [fold_right fst snd]. clear. induction l as [|b l IH]; cbn [qsum]; [ring|].
     rewrite <- IH. ring.
   Qed.
 
@@ -430,7 +434,7 @@ Section SimP.
       + destruct (IH d n ND H) as [d' [n' [E [ND' S]]]]. exists d', n'. repeat split; auto.
   Qed.
 
-  Lemma init_keys s0 : NoDup (keys (init_dict s0)).
+  Lemma init_keys (s0 : state) : NoDup (keys (init_dict s0)).
   Proof. constructor; [intros []|constructor]. Qed.
 
   Lemma keys_finalize (d : dict) : map fst (finalize d) = keys d.
@@ -486,3 +490,255 @@ Section SimP.
     - now apply IH.
   Qed.
 End SimP.
+
+(* ------------------------------------------------------------------------------------------ *)
+(* instruments whose p1 is a probability: truncation bound and support                          *)
+(* ------------------------------------------------------------------------------------------ *)
+Section SimBound.
+  Variable gate : Type.
+  Variable state : Type.
+  Variable apply : gate -> list nat -> state -> state.
+  Variable p1 : state -> nat -> Q.
+  Variable proj : state -> nat -> bool -> state.
+  Variable flipx : state -> nat -> state.
+  Variable tol : Q.
+  Hypothesis p1_range : forall s q, (0 <= p1 s q <= 1)%Q.
+  Notation branch := (Sim.branch state).
+  Notation dict := (Sim.dict state).
+  Notation prog := (Sim.prog gate).
+  Notation split := (split_branch p1 proj flipx tol).
+  Notation step := (nonunitary_step p1 proj flipx tol).
+  Notation run := (Sim.run apply p1 proj flipx tol).
+  Open Scope Q_scope.
+
+  Definition bprob (kb : N * branch) : Q := fst (snd kb).
+  Definition mass (bs : list (N * branch)) : Q := qsum bprob bs.
+  Definition qn (n : nat) : Q := inject_Z (Z.of_nat n).
+
+  Lemma qn_add a b : qn (a + b) == qn a + qn b.
+  Proof. unfold qn. now rewrite Nat2Z.inj_add, inject_Z_plus. Qed.
+
+  Lemma isclose0_small p : 0 <= p -> isclose0 tol p = true -> p <= tol.
+  Proof.
+    intros Hp H. unfold isclose0 in H. apply Qle_bool_iff in H. now rewrite Qabs_pos in H.
+  Qed.
+
+  Lemma isclose0_pos p : 0 <= tol -> 0 <= p -> isclose0 tol p = false -> 0 < p.
+  Proof.
+    intros Ht Hp H. unfold isclose0 in H. destruct (Qlt_le_dec 0 p) as [L|L]; [assumption|].
+    exfalso. assert (E : Qle_bool (Qabs p) tol = true); [|congruence].
+    apply Qle_bool_iff. rewrite Qabs_pos by assumption. lra.
+  Qed.
+
+  (* one branch: what is kept is at most the parent's mass and misses at most tol per truncated child *)
+  Lemma split_mass q kf k (b : branch) : 0 <= fst b <= 1 ->
+    fst b - qn (pruned_here p1 tol q b) * tol <= mass (split q kf k b) <= fst b /\
+    (forall kb, In kb (split q kf k b) -> 0 <= bprob kb).
+  Proof.
+    intros [Hb0 Hb1]. destruct (p1_range (snd b) q) as [Hp0 Hp1].
+    unfold split_branch, pruned_here, mass. rewrite qsum_app.
+    set (P := p1 (snd b) q) in *. set (pb := fst b) in *.
+    assert (Hx0 : 0 <= pb * (1 - P)) by (apply Qmult_le_0_compat; lra).
+    assert (Hx1 : 0 <= pb * P) by (apply Qmult_le_0_compat; lra).
+    assert (Hy0 : pb * (1 - P) <= 1 - P).
+    { setoid_replace (1 - P) with (1 * (1 - P)) at 2 by ring. apply Qmult_le_compat_r; lra. }
+    assert (Hy1 : pb * P <= P).
+    { setoid_replace P with (1 * P) at 2 by ring. apply Qmult_le_compat_r; lra. }
+    assert (Hs : pb * (1 - P) + pb * P == pb) by ring.
+    destruct (isclose0 tol (1 - P)) eqn:Z0, (isclose0 tol P) eqn:Z1; cbn [qsum bprob fst snd plus]; unfold qn; cbn [Z.of_nat Pos.of_succ_nat Pos.succ app]; unfold inject_Z;
+      try (apply isclose0_small in Z0; [|lra]); try (apply isclose0_small in Z1; [|lra]).
+    - split; [split; lra|intros kb []].
+    - split; [split; lra|]. intros kb [E|[]]; subst; cbn [bprob fst snd]; assumption.
+    - split; [split; lra|]. intros kb [E|[]]; subst; cbn [bprob fst snd]; assumption.
+    - split; [split; lra|]. intros kb [E|[E|[]]]; subst; cbn [bprob fst snd]; assumption.
+  Qed.
+
+  Lemma pruned_count_sum q (d : dict) :
+    qsum (fun kb => qn (pruned_here p1 tol q (snd kb))) (branches d) == qn (pruned_count p1 tol q d).
+  Proof.
+    induction d as [|[k l] r IH]; [reflexivity|].
+    rewrite branches_cons, qsum_app, IH, qsum_map. cbn [pruned_count fold_right snd].
+    fold (pruned_count p1 tol q r). rewrite qn_add. apply Qplus_comp; [|reflexivity].
+    cbn [snd]. clear. induction l as [|b l IH]; [reflexivity|]. cbn [qsum fold_right]. now rewrite qn_add, IH.
+  Qed.
+
+  Lemma step_mass q kf (d d' : dict) : NoDup (keys d) -> step q kf d = Some d' ->
+    (forall kb, In kb (branches d) -> 0 <= bprob kb) -> mass (branches d) <= 1 ->
+    mass (branches d) - qn (pruned_count p1 tol q d) * tol <= mass (branches d') <= mass (branches d) /\
+    (forall kb, In kb (branches d') -> 0 <= bprob kb).
+  Proof.
+    intros ND E Hpos Hm.
+    destruct (step_ok _ p1 proj flipx tol q kf d ND) as [d1 [E1 [_ [P1 _]]]].
+    rewrite E in E1; inversion E1; subst d1; clear E1.
+    assert (Hb : forall kb, In kb (branches d) -> 0 <= fst (snd kb) <= 1).
+    { intros kb HI. split; [now apply Hpos|]. apply Qle_trans with (mass (branches d)); [|assumption].
+      apply (qsum_In_le bprob); assumption. }
+    rewrite pending_insert_flat in P1. split.
+    - assert (Hd' : mass (branches d') == qsum (fun kb => mass (split q kf (fst kb) (snd kb))) (branches d)).
+      { unfold mass at 1. rewrite (qsum_perm _ _ _ P1), qsum_flat_map. reflexivity. }
+      assert (Hlow : mass (branches d) - qn (pruned_count p1 tol q d) * tol ==
+                     qsum (fun kb => bprob kb - qn (pruned_here p1 tol q (snd kb)) * tol) (branches d)).
+      { rewrite (qsum_minus bprob (fun kb => qn (pruned_here p1 tol q (snd kb)) * tol)).
+        rewrite (qsum_scal tol (fun kb => qn (pruned_here p1 tol q (snd kb)))), pruned_count_sum. reflexivity. }
+      rewrite Hd', Hlow. split; apply qsum_le; intros kb HI;
+        destruct (split_mass q kf (fst kb) (snd kb) (Hb kb HI)) as [[L U] _]; assumption.
+    - intros kb HI. apply (Permutation_in _ P1) in HI. apply in_flat_map in HI as [kb0 [HI0 HI]].
+      destruct (split_mass q kf (fst kb0) (snd kb0) (Hb kb0 HI0)) as [_ Hp]. now apply Hp.
+  Qed.
+
+  Lemma mass_evolve g qs (d : dict) : mass (branches (evolve apply g qs d)) = mass (branches d).
+  Proof. unfold mass. rewrite branches_evolve, qsum_map. reflexivity. Qed.
+
+  Lemma run_mass : 0 <= tol -> forall (p : prog) (d : dict) n d' n', NoDup (keys d) ->
+    (forall kb, In kb (branches d) -> 0 <= bprob kb) -> mass (branches d) <= 1 ->
+    run p d n = Ok (d', n') ->
+    mass (branches d) + qn n * tol <= mass (branches d') + qn n' * tol /\ mass (branches d') <= mass (branches d).
+  Proof.
+    intros Ht. induction p as [|i r IH]; intros d n d' n' ND Hpos Hm E.
+    - inversion E; subst. split; apply Qle_refl.
+    - destruct i as [g qs|q c|q|qs| |]; cbn [Sim.run] in E; try discriminate.
+      + apply IH in E; [| now rewrite keys_evolve | | now rewrite mass_evolve].
+        * now rewrite mass_evolve in E.
+        * intros kb HI. rewrite branches_evolve in HI. apply in_map_iff in HI as [kb0 [E0 HI]]. subst kb.
+          cbn [bprob fst snd]. now apply Hpos.
+      + destruct (step q (N.shiftl 1 (N.of_nat c)) d) as [d1|] eqn:E1; [|discriminate].
+        destruct (step_ok _ p1 proj flipx tol q (N.shiftl 1 (N.of_nat c)) d ND) as [d1' [E1' [ND1 _]]]. rewrite E1 in E1'; inversion E1'; subst d1'.
+        destruct (step_mass q (N.shiftl 1 (N.of_nat c)) d d1 ND E1 Hpos Hm) as [[L U] Hpos1].
+        apply IH in E; auto; [|lra]. rewrite qn_add in E. lra.
+      + destruct (step q 0%N d) as [d1|] eqn:E1; [|discriminate].
+        destruct (step_ok _ p1 proj flipx tol q 0%N d ND) as [d1' [E1' [ND1 _]]]. rewrite E1 in E1'; inversion E1'; subst d1'.
+        destruct (step_mass q 0%N d d1 ND E1 Hpos Hm) as [[L U] Hpos1].
+        apply IH in E; auto; [|lra]. rewrite qn_add in E. lra.
+      + now apply IH in E.
+  Qed.
+
+  Lemma total_finalize (d : dict) : total (finalize d) == mass (branches d).
+  Proof.
+    rewrite total_ev, (finalize_ev _ _ apply p1 proj flipx). apply qsum_ext; intros kb _.
+    unfold contrib, bprob. cbn [path_law]. unfold ev; cbn [fold_right fst snd]. ring.
+  Qed.
+
+  Theorem simulate_pruned_bound : 0 <= tol -> forall s0 (p : prog) out n,
+    simulate apply p1 proj flipx tol s0 p = Ok out -> pruned_total apply p1 proj flipx tol s0 p = Ok n ->
+    1 - qn n * tol <= total out <= 1.
+  Proof.
+    intros Ht s0 p out n E En. unfold simulate, pruned_total in *.
+    destruct (run p (init_dict s0) 0%nat) as [[d' n']| |] eqn:R; try discriminate.
+    cbn [res_map fst snd] in *. inversion E; inversion En; subst. clear E En.
+    assert (M0 : mass (branches (init_dict s0)) == 1) by (unfold mass, init_dict; cbn; ring).
+    apply run_mass in R; auto.
+    - rewrite total_finalize. destruct R as [L U]. rewrite M0 in *. unfold qn at 1 in L. cbn [Z.of_nat] in L. unfold inject_Z in L. split; lra.
+    - apply init_keys.
+    - intros kb [E|[]]; subst; cbn; lra.
+    - rewrite M0. apply Qle_refl.
+  Qed.
+
+  (* ---- support: with tolerance 0 every reported outcome has positive probability ---- *)
+  Definition posdict (d : dict) : Prop := forall kl, In kl d -> forall b, In b (snd kl) -> 0 < fst b.
+
+  Lemma posdict_append (d : dict) k v : posdict d -> 0 < fst v -> posdict (dict_append d k v).
+  Proof.
+    induction d as [|[k' l] r IH]; intros Hd Hv; cbn [dict_append].
+    - intros kl [E|[]] b Hb; subst; cbn [snd] in Hb. destruct Hb as [E|[]]; now subst.
+    - assert (Hr : posdict r) by (intros kl HI; apply Hd; now right).
+      destruct (N.eqb k k').
+      + intros kl [E|HI] b Hb; [subst; cbn [snd] in Hb|now apply (Hr kl)].
+        apply in_app_or in Hb as [Hb|[E|[]]]; [|now subst]. apply (Hd (k', l)); [now left|assumption].
+      + intros kl [E|HI] b Hb; [subst; apply (Hd (k', l)); [now left|assumption]|].
+        now apply (IH Hr Hv kl).
+  Qed.
+
+  Lemma posdict_inserts ins (d : dict) : posdict d -> (forall kv, In kv ins -> 0 < fst (snd kv)) ->
+    posdict (apply_inserts ins d).
+  Proof.
+    revert d; induction ins as [|[k v] r IH]; intros d Hd Hi; cbn [apply_inserts]; [assumption|].
+    apply IH; [apply posdict_append; [assumption|apply (Hi (k, v)); now left]|].
+    intros kv HI; apply Hi; now right.
+  Qed.
+
+  Lemma posdict_branches (d : dict) kb : posdict d -> In kb (branches d) -> 0 < bprob kb.
+  Proof.
+    intros Hd HI. apply in_flat_map in HI as [kl [Hkl HI]]. apply in_map_iff in HI as [b [E Hb]]. subst kb.
+    cbn [bprob fst snd]. now apply (Hd kl).
+  Qed.
+
+  Lemma split_pos q kf k (b : branch) : 0 <= tol -> 0 < fst b -> forall kv, In kv (split q kf k b) -> 0 < fst (snd kv).
+  Proof.
+    intros Ht Hb kv HI. destruct (p1_range (snd b) q) as [Hp0 Hp1]. unfold split_branch in HI.
+    apply in_app_or in HI as [HI|HI].
+    - destruct (isclose0 tol (1 - p1 (snd b) q)) eqn:Z; [destruct HI|]. destruct HI as [E|[]]; subst kv; cbn [fst snd].
+      apply isclose0_pos in Z; [|assumption|lra]. now apply Qmult_lt_0_compat.
+    - destruct (isclose0 tol (p1 (snd b) q)) eqn:Z; [destruct HI|]. destruct HI as [E|[]]; subst kv; cbn [fst snd].
+      apply isclose0_pos in Z; [|assumption|lra]. now apply Qmult_lt_0_compat.
+  Qed.
+
+  Definition gooddict (d : dict) : Prop := posdict d /\ forall kl, In kl d -> snd kl <> [].
+
+  Lemma step_good q kf (d d' : dict) : 0 <= tol -> NoDup (keys d) -> gooddict d -> step q kf d = Some d' -> gooddict d'.
+  Proof.
+    intros Ht ND [Hd _] E. destruct (step_ok _ p1 proj flipx tol q kf d ND) as [d1 [E1 [_ [_ [Hne Ed]]]]].
+    rewrite E in E1. injection E1 as ->. split; [|assumption].
+    rewrite Ed. intros kl HI. unfold cleanup in HI. apply filter_In in HI as [HI _]. revert kl HI.
+    apply posdict_inserts.
+    - intros kl HI b Hb. unfold emptied in HI. apply in_map_iff in HI as [kl0 [E0 _]]. subst kl. destruct Hb.
+    - intros kv HI. rewrite pending_insert_flat in HI. apply in_flat_map in HI as [kb [Hkb HI]].
+      apply (split_pos q kf (fst kb) (snd kb)); auto. now apply (posdict_branches d kb).
+  Qed.
+
+  Lemma evolve_good g qs (d : dict) : gooddict d -> gooddict (evolve apply g qs d).
+  Proof.
+    intros [Hd Hne]. split; intros kl HI; unfold evolve in HI; apply in_map_iff in HI as [kl0 [E HI]]; subst kl; cbn [snd].
+    - intros b Hb. apply in_map_iff in Hb as [b0 [E Hb]]. subst b. cbn [fst]. now apply (Hd kl0).
+    - specialize (Hne kl0 HI). destruct kl0 as [k0 l0]. cbn [snd] in *. destruct l0 as [|b0 l0]; [now exfalso; apply Hne|cbn [map]; discriminate].
+  Qed.
+
+  Lemma run_good : 0 <= tol -> forall (p : prog) (d : dict) n d' n', NoDup (keys d) -> gooddict d ->
+    run p d n = Ok (d', n') -> gooddict d'.
+  Proof.
+    intros Ht. induction p as [|i r IH]; intros d n d' n' ND G E.
+    - now inversion E; subst.
+    - destruct i as [g qs|q c|q|qs| |]; cbn [Sim.run] in E; try discriminate.
+      + apply IH in E; auto; [now rewrite keys_evolve|now apply evolve_good].
+      + destruct (step q (N.shiftl 1 (N.of_nat c)) d) as [d1|] eqn:E1; [|discriminate].
+        destruct (step_ok _ p1 proj flipx tol q (N.shiftl 1 (N.of_nat c)) d ND) as [d1' [E1' [ND1 _]]]. rewrite E1 in E1'; inversion E1'; subst d1'.
+        apply IH in E; auto. now apply (step_good q (N.shiftl 1 (N.of_nat c)) d d1).
+      + destruct (step q 0%N d) as [d1|] eqn:E1; [|discriminate].
+        destruct (step_ok _ p1 proj flipx tol q 0%N d ND) as [d1' [E1' [ND1 _]]]. rewrite E1 in E1'; inversion E1'; subst d1'.
+        apply IH in E; auto. now apply (step_good q 0%N d d1).
+      + now apply IH in E.
+  Qed.
+
+  Lemma sum_probs_pos (l : list branch) : l <> [] -> (forall b, In b l -> 0 < fst b) -> 0 < sum_probs l.
+  Proof.
+    intros Hne Hp. rewrite (sum_probs_qsum _ l). destruct l as [|b l]; [congruence|]. cbn [qsum].
+    assert (0 < fst b) by (apply Hp; now left).
+    assert (0 <= qsum fst l) by (apply qsum_nonneg; intros x Hx; apply Qlt_le_weak, Hp; now right). lra.
+  Qed.
+
+  Theorem simulate_support : 0 <= tol -> forall s0 (p : prog) out,
+    simulate apply p1 proj flipx tol s0 p = Ok out -> forall k pr, In (k, pr) out -> 0 < pr.
+  Proof.
+    intros Ht s0 p out E k pr HI. unfold simulate in E.
+    destruct (run p (init_dict s0) 0%nat) as [[d' n']| |] eqn:R; try discriminate.
+    cbn [res_map fst] in E. inversion E; subst; clear E.
+    apply run_good in R; auto; [|apply init_keys|].
+    - destruct R as [Hd Hne]. unfold finalize in HI. apply in_map_iff in HI as [kl [E HI]]. inversion E; subst.
+      apply sum_probs_pos; [now apply Hne|now apply Hd].
+    - split; intros kl [E|[]]; subst; cbn [snd]; [|discriminate]. intros b [E|[]]; subst; cbn; lra.
+  Qed.
+End SimBound.
+
+(* ------------------------------------------------------------------------------------------ *)
+(* the QSim instance satisfies the only hypothesis                                              *)
+(* ------------------------------------------------------------------------------------------ *)
+Lemma clamp01_range x : (0 <= clamp01 x <= 1)%Q.
+Proof.
+  unfold clamp01. destruct (Qle_bool x 0) eqn:A; [split; lra|].
+  destruct (Qle_bool 1 x) eqn:B; [split; lra|].
+  assert (~ (x <= 0)%Q) by (intros H; apply Qle_bool_iff in H; congruence).
+  assert (~ (1 <= x)%Q) by (intros H'; apply Qle_bool_iff in H'; congruence).
+  split; lra.
+Qed.
+
+Lemma qp1_range : forall s q, (0 <= qp1 s q <= 1)%Q.
+Proof. intros; apply clamp01_range. Qed.
